@@ -119,7 +119,7 @@ def run(check, repo: Repo) -> None:
                  fail_detail="optimizer state is not re-mapped onto the new parameter tensors")
     from ..domains.alias import shared_mutable_values
     sh = shared_mutable_values(recon)
-    check.decide(not sh, "C05-R2", "reconnect: every parameter receives its own state dict (no shared mutable value)", "", omod.line(sh[0][0]) if sh else omod.line(recon),
+    check.decide(not sh, "C05-R2", "reconnect: every parameter receives its own state dict (no shared mutable value)", "", omod.line(sh[0][0]) if sh else omod.line(recon), definite=True,
                  fail_detail="; ".join(d for _, d in sh) + ": with two or more state-carrying tensors in one optimizer (e.g. Adam on descan shifts + scan positions) the moments and the "
                              "step counter of all parameters alias one dict — the resumed optimisation diverges from the uninterrupted one")
     ok = "self._scheduler.optimizer = self._optimizer" in unparse(recon)
